@@ -28,14 +28,6 @@ Q20r(r, pd, q, n) == IF n = 0 THEN q
                      ELSE Q20r(2 * r, pd, 2 * q, n - 1)
 Q20(pn, pd) == IF pn >= pd THEN 1048576 ELSE Q20r(pn, pd, 0, 20)
 
-\* round-to-nearest-even of a non-negative integer < 2^30 to 24 significant bits (f32)
-RECURSIVE Ulp(_, _)
-Ulp(v, m) == IF v < 16777216 * m THEN m ELSE Ulp(v, 2 * m)
-F32Round(v) == LET m == Ulp(v, 1)  r == v % m  b == v - r IN
-               IF 2 * r > m THEN b + m
-               ELSE IF 2 * r < m THEN b
-               ELSE IF ((b \div m) % 2) = 0 THEN b ELSE b + m
-
 \* The code compares the elapsed time with fl(cycle * (repeats+1)) computed in f32: when that
 \* product needs more than 24 bits the end instant is the ROUNDED product.  This is the only place
 \* where a configuration-derived quantity is rounded; it is modelled here (implementation-shaped)
